@@ -176,7 +176,7 @@ impl TlsSim {
                         let _ = run_server(acc, ServerProto::Auto, cfg, ctx, SimExecutor::default(), None).await;
                     }));
                 }
-                let cfg = super::ClientCfg { pool: true, idle_timeout_ms: None, max_idle: 32, continue_after_preemption: true, alpn_h2: false, timeout_ms: Some(20_000), order: order_of(case) };
+                let cfg = super::ClientCfg { pool: true, idle_timeout_ms: None, max_idle: 32, continue_after_preemption: true, alpn_h2: false, timeout_ms: None, order: order_of(case) };
                 let svc = super::build_client(&net, &cfg, true);
                 let send = |u: String, id: u32| {
                     let svc = svc.clone();
@@ -364,7 +364,7 @@ impl Scenario for TlsSim {
                 // ---- the client attempt
                 let attempt = async {
                     if case.via_client {
-                        let cfg = super::ClientCfg { pool: true, idle_timeout_ms: None, max_idle: 32, continue_after_preemption: true, alpn_h2: case.client_alpn_h2, timeout_ms: Some(20_000), order: order_of(case) };
+                        let cfg = super::ClientCfg { pool: true, idle_timeout_ms: None, max_idle: 32, continue_after_preemption: true, alpn_h2: case.client_alpn_h2, timeout_ms: None, order: order_of(case) };
                         let svc = super::build_client(&net, &cfg, true);
                         let mut rb = http::Request::builder().method("GET").uri(uri.as_str()).header("x-req-id", "1").header("x-body-len", "0");
                         if let Some(h) = &case.host_header {
@@ -415,9 +415,25 @@ impl Scenario for TlsSim {
                         }
                     }
                 };
-                let res = match tokio::time::timeout(Duration::from_secs(120), attempt).await {
-                    Ok(r) => r,
-                    Err(_) => Err("HANG: no result within 120 s of virtual time".to_string()),
+                // a hang = no byte has moved on any pipe for two minutes of virtual time while the attempt
+                // is unresolved (a slow pipe - one delayed byte at a time - is not a hang)
+                let res = {
+                    tokio::pin!(attempt);
+                    let mut last = crate::net::moved();
+                    let mut quiet = 0;
+                    loop {
+                        match tokio::time::timeout(Duration::from_secs(60), &mut attempt).await {
+                            Ok(r) => break r,
+                            Err(_) => {
+                                let now = crate::net::moved();
+                                quiet = if now == last { quiet + 1 } else { 0 };
+                                last = now;
+                                if quiet >= 2 {
+                                    break Err("HANG: no result, and nothing has moved on the connection for two minutes of virtual time".to_string());
+                                }
+                            }
+                        }
+                    }
                 };
                 peer_task.abort();
                 let (first, dials, c2s_all) = {
